@@ -11,6 +11,8 @@ sys.path.insert(0, os.path.join(V, "sa"))
 from props import PROPS
 
 ALL = [p for p in ["C%02d" % i for i in range(1, 21)] if p in PROPS]
+if os.environ.get("REFAC_PROPS"):  # partial run for a quick look (write it to a separate REFAC_MATRIX, never merge it)
+    ALL = os.environ["REFAC_PROPS"].split(",")
 RD = os.path.join(V, "refactors")
 BASES = ["b788a24", "87c37a6", "3f0a31d"]  # earlier /repo HEADs the refactorings were written against (newest first)
 _BASELINES = {}
